@@ -46,7 +46,7 @@ def run(ctx):
     mb = [x for x in lib.real_bodies() if x.name.endswith("identifier::Map::new")]
     if len(mb) == 1:
         m = mb[0]
-        ins = [cs for cs in m.calls() if cname(cs.node) == "std::collections::HashMap::insert"]
+        ins = [cs for cs in m.calls() if cname(cs.node) in ("std::collections::HashMap::insert", "std::collections::BTreeMap::insert")]
         for cs in ins:
             val = strip(term_of(m, cs.node["args"][2]), mir.VALUE_PRESERVING)
             keyt = strip(term_of(m, cs.node["args"][1]))
